@@ -23,6 +23,10 @@ func newWriter(mode string, out io.Writer, fixed []Bytes) ion.Writer {
 		return ion.NewTextWriterOpts(out, ion.TextWriterPretty)
 	case "binary", "binsid", "bintwice":
 		return ion.NewBinaryWriter(out)
+	case "textquiet":
+		return ion.NewTextWriterOpts(out, ion.TextWriterQuietFinish)
+	case "textimp":
+		return ion.NewTextWriter(out, ion.NewSharedSymbolTable("shared", 1, []string{"s1", "a", "name"}))
 	case "binlst":
 		syms := make([]string, len(fixed))
 		for i, f := range fixed {
@@ -163,7 +167,7 @@ func cmdRoundtrip(in *bufio.Scanner, out *bufio.Writer) error {
 			return err
 		}
 		idx++
-		for _, mode := range []string{"text", "pretty", "binary", "binsid", "bintwice"} {
+		for _, mode := range []string{"text", "pretty", "binary", "binsid", "bintwice", "textquiet", "textimp"} {
 			o := rtObs{Idx: idx, Mode: mode, Out: Bytes{}, Back: []Val{}}
 			var buf bytes.Buffer
 			if mode == "binsid" {
@@ -176,7 +180,7 @@ func cmdRoundtrip(in *bufio.Scanner, out *bufio.Writer) error {
 						return err
 					}
 				}
-				if mode == "bintwice" {
+				if mode == "bintwice" || mode == "textquiet" {
 					// the same values again as a second datagram of the same writer (no new symbols in it)
 					if err := w.Finish(); err != nil {
 						return err
